@@ -47,7 +47,7 @@ CLAIMED = {
          "REFINEMENT (C03Ref*.lean): the object machine's merge, amb, concat, take_until and zip (the call-by-call transliteration of the Rust operators over "
          "the StreamController and plain Subjects) refine their history machines for EVERY history (merge_refines, amb_refines, concat_refines, "
          "take_until_refines, zip_refines, skip_until_refines, sample_refines, flat_map_refines, switch_on_next_refines, combine_latest_refines: log, status, "
-         "registrations per subject), so the list specs hold of the machine (…_machine_spec); sequence_equal (a tree of controllers): differential check only. "
+         "sequence_equal_refines (a tree of controllers): log, status, registrations per subject), so the list specs hold of the machine (…_machine_spec). "
          "Tie: on every hot-source history the check compares implementation = history machine = spec, and implementation = object machine on all cases.",
          "§5 C03", "Lean 4 proof: history machines = list specs by induction, machine refines history machines (ten operators) + per-run three-way differential correspondence"),
  "C06": ("Theorems Rx.C06.*: (kernel layer) every single-source kernel that ends its downstream while being fed has cancelled its upstream, for all inputs; "
